@@ -7,10 +7,12 @@
    (C10_*_clean), the setters by id, Message.Marshal of any struct (whatever its outcome) and every accepted
    Message.UnmarshalJSON and UnsetFields by path (C10_marshal_clean, C10_json_clean, C10_unset_path_clean); for failing
    JSON documents (the state then depends on Go's map order) it is not claimed. This rests on the repairs F12 (presence sets are reset), F28 (what was set is re-created)
-   and F30 (what failed is re-created); track fields: model and search only. *)
+   and F30 (what failed is re-created); track fields: model and search only.
+   Over histories (C10_history): after ANY sequence of the state-changing operations of the message API (the JSON
+   documents among them accepted) Unpack behaves as on a new message; C10_history_clean is the invariant. *)
 From Iso Require Import Model.Base Model.Padding Model.Encoding Model.Prefix Model.Bitmap Model.Spec Model.Field Model.Message
      Proofs.BaseLemmas Proofs.FieldProofs Proofs.CompositeProofs Proofs.MessageRoundtrip Proofs.IndependenceProofs Properties.C01.
-From Iso Require Import Model.MessageOps Model.Marshal Proofs.CleanOps.
+From Iso Require Import Model.MessageOps Model.Marshal Proofs.CleanOps Proofs.HistoryProofs.
 
 Theorem C10_prim : forall p st0 st1 data,
   snd (prim_unpack p st0 data) = snd (prim_unpack p st1 data) /\
@@ -65,6 +67,52 @@ Theorem C10_unset_path_clean : forall S m path, NoDup (map fst (ms_fields S)) ->
   msg_clean S m -> msg_clean S (fst (m_unset_path S m path)).
 Proof. exact m_unset_path_clean. Qed.
 Print Assumptions C10_unset_path_clean.
+
+(* ---- histories ---- *)
+(* Whatever sequence of state-changing operations of the message API an object has been through since it was created -
+   MTI, Field / BinaryField, UnsetField, UnsetFields by path, Unpack and Marshal whatever their outcome, accepted JSON
+   documents, Pack, MarshalJSON, Bitmap, Clone (going on with the original or with the copy) - Unpack of any bytes into it
+   has the outcome of Unpack into a new message of the same specification and, when it succeeds, leaves the same MTI,
+   bitmap, data elements (complete states) and populated set. *)
+Theorem C10_history : forall S ops d, NoDup (map fst (ms_fields S)) -> (forall i s, In (i, s) (ms_fields S) -> 2 <= i) ->
+  hist_ok S (mfresh S) ops ->
+  let used := hrun S (mfresh S) ops in
+  snd (m_unpack S used d) = snd (m_unpack S (mfresh S) d) /\
+  (u_is_ok (snd (m_unpack S used d)) = true ->
+     m_mti (fst (m_unpack S used d)) = m_mti (fst (m_unpack S (mfresh S) d)) /\
+     m_bm (fst (m_unpack S used d)) = m_bm (fst (m_unpack S (mfresh S) d)) /\
+     m_fields (fst (m_unpack S used d)) = m_fields (fst (m_unpack S (mfresh S) d)) /\
+     forall id, zmem id (m_present (fst (m_unpack S used d))) = zmem id (m_present (fst (m_unpack S (mfresh S) d)))).
+Proof. exact history_unpack_as_new. Qed.
+Print Assumptions C10_history.
+
+(* the invariant behind it, for every reachable state *)
+Theorem C10_history_clean : forall S, NoDup (map fst (ms_fields S)) -> (forall i s, In (i, s) (ms_fields S) -> 2 <= i) ->
+  forall ops m, msg_clean S m -> hist_ok S m ops -> msg_clean S (hrun S m ops).
+Proof. exact history_clean. Qed.
+Print Assumptions C10_history_clean.
+
+(* a history over a message with a composite element: write two subfields by JSON, pack, unset one by path, fail an
+   Unpack inside the composite, clone; the history is admissible and the object differs from a new one *)
+Definition ms_hist : mspec :=
+  {| ms_mti := {| ps_kind := KString; ps_enc := EncASCII; ps_pref := PFixed PfASCII; ps_len := 4; ps_pad := PadNone; ps_packer := PkDefault |};
+     ms_bm := {| bm_len := 8; bm_auto := true; bm_enc := EncBinary; bm_pref := PFixed PfBinary |};
+     ms_fields := [(2, FPrim {| ps_kind := KString; ps_enc := EncASCII; ps_pref := PVar PfASCII 2; ps_len := 19; ps_pad := PadNone; ps_packer := PkDefault |});
+                   (3, c_ex)] |}.
+Definition ops_hist : list hop :=
+  [HMti [x30; x31; x30; x30];
+   HFromJson [([x33], JO [([x31], JN 42); ([x32], JS [x61; x62])]); ([x32], JS [x61; x62; x63])];
+   HPack; HUnsetPath [x33; x2e; x31]; HJson;
+   HUnpack [x30; x31; x30; x30; x20; x00; x00; x00; x00; x00; x00; x00; x30; x39];
+   HClone; HSet 2 [x7a]].
+Example C10_ex_history :
+  NoDup (map fst (ms_fields ms_hist)) /\ (forall i s, In (i, s) (ms_fields ms_hist) -> 2 <= i) /\
+  hist_ok ms_hist (mfresh ms_hist) ops_hist /\
+  m_fields (hrun ms_hist (mfresh ms_hist) ops_hist) <> m_fields (mfresh ms_hist).
+Proof.
+  split; [repeat constructor; cbn; intuition discriminate|]. split; [intros i s [H|[H|[]]]; inversion H; lia|].
+  split; [vm_compute; repeat split; reflexivity|vm_compute; discriminate].
+Qed.
 
 (* a tagged composite that was populated with both subfields and is then used to unpack only one of them shows
    exactly that one (the F12 scenario), and holds nothing of what it held before (F28: Unpack discards the
